@@ -5,7 +5,9 @@
     same values agree; more than 65535 PSKs rejected.  Non-vacuity: the term algebra Prim satisfies FreePsk.
 (T) random PSK commits on the real library (external and resumption PSKs, by value and by reference, 1-4 PSKs, per-member holdings: same /
     different / missing value, retention and join epoch for resumption): exactly the holders of all values reach the epoch (direct oracle),
-    and the implementation's psk_secret / epoch secrets are recomputed byte for byte by the compiled model (driver c13) from the PSK list."""
+    and the implementation's psk_secret is recomputed byte for byte by the compiled model (driver c13) under variations of value / id / nonce / order / count;
+    `eks` rows: the epoch secrets and confirmation tag of every path-less PSK commit of those REAL groups recomputed by KS.epochOfCommit from the commit's own PSK list
+    (ids and nonces as sent, message order; hook verif_commit_proposals)."""
 from . import generic
 
 SOURCES = ["mls-rs/src/psk/secret.rs", "mls-rs/src/psk/resolver.rs", "mls-rs/src/psk.rs", "mls-rs/src/group/key_schedule.rs",
@@ -17,12 +19,14 @@ def run(ctx):
         ctx, ["MlsVerif.Props.C18", "MlsVerif.Props.C18Repo"], ["c18"], "c13", "c18", SOURCES + ["mls-rs/src/group/state_repo.rs"],
         rule="each case: group of 3-5 members, 1-4 PSK proposals (external / resumption, by value / by reference, random order), per member and PSK: "
              "holds the same value / a different value / nothing; resumption epochs inside and outside each member's retention and before its join; "
-             "a joiner with and without the PSKs; rows = psk-secret chain and epoch secrets recomputed by the model from the (id, nonce, value) list; "
+             "a joiner with and without the PSKs; rows = psk-secret chain recomputed by the model from (id, nonce, value) lists and their variations, and `eks` rows = secrets of the "
+             "epoch the real group entered + confirmation tag, recomputed from the real commit's PSK proposals in message order (values from the harness's bookkeeping); "
              "non-trivial = cases",
         what_corr="the implementation's PSK secret / epoch secret differs from the RFC 9420 chain over the committed PSK list",
         what_oracle="a member without (all) the PSK values reached the epoch, a holder was refused, a rejecting member changed, or holders disagree",
         assumptions=["theorems assume an injective KDF (FreePsk) — the standard random-oracle idealisation; the byte-level rows use the Lean HKDF reference",
-                     "PSK nonces are taken from the commit as sent (random per proposal)"],
+                     "PSK nonces are taken from the commit as sent (random per proposal)",
+                     "`eks` rows exist for commits without an update path only (the commit secret of a path is not observable)"],
         nontrivial=lambda r, kv: int(kv.get("cases", "0")),
         # which resumption PSKs resolve at all: the repository's own lookup path (`resumption_secret`), tied as `repo.psk` rows of the
         # storage scenarios (both providers, random write / reload / crash points) to Repo.resumptionSecret; MlsVerif.Props.C18Repo
